@@ -56,6 +56,20 @@ type Check struct {
 
 var registry = map[string]*Check{}
 
+// aux commands run a small piece of a check in a fresh process (`twcheck aux <name> args…`)
+var auxRegistry = map[string]func(args []string) int{}
+
+func RegisterAux(name string, fn func(args []string) int) { auxRegistry[name] = fn }
+
+func AuxMain(name string, args []string) int {
+	fn := auxRegistry[name]
+	if fn == nil {
+		fmt.Fprintln(os.Stderr, "unknown aux command", name)
+		return 2
+	}
+	return fn(args)
+}
+
 func Register(c *Check) { registry[c.ID] = c }
 
 func Lookup(id string) *Check { return registry[id] }
